@@ -34,6 +34,7 @@ type Clause struct {
 	Info  *types.Info
 	Line  string // file:line of the //@ comment
 	Props []string
+	Checked bool // typeinvnew
 }
 
 type LoopSpec struct {
@@ -132,9 +133,12 @@ func parseContractFile(fset *token.FileSet, f *ast.File, pkg *packages.Package) 
 				axioms = append(axioms, &Clause{Kind: "globalwrite", Text: rest, Ord: len(axioms) + 1, Line: where})
 				continue
 			}
-			if word == "typeinv" {
+			if word == "typeinv" || word == "typeinvnew" {
+				// typeinv: assumed whenever a *T is read. typeinvnew: additionally PROVED for every object built by a
+				// composite literal &T{...} in a verified function (for invariants over fields that are only ever set
+				// in literals)
 				tn, r := splitWord(rest)
-				axioms = append(axioms, &Clause{Kind: "typeinv:" + tn, Text: r, Ord: len(axioms) + 1, Line: where})
+				axioms = append(axioms, &Clause{Kind: "typeinv:" + tn, Text: r, Ord: len(axioms) + 1, Line: where, Checked: word == "typeinvnew"})
 				continue
 			}
 			if word == "axiom" {
